@@ -9,8 +9,9 @@ AllKinds  == {"none", "http", "httphosts", "udp", "local", "two", "fan", "bare",
 CpuM(m)   == [form |-> "m", milli |-> m]
 CpuDec(m) == [form |-> "dec", milli |-> m]
 CpuDec3(m) == [form |-> "dec3", milli |-> m]
-B(n, sfx)  == [n |-> n, half |-> FALSE, suffix |-> sfx]
-Bh(n, sfx) == [n |-> n, half |-> TRUE, suffix |-> sfx]
+B(n, sfx)     == [n |-> n, tenths |-> 0, suffix |-> sfx]
+Bh(n, sfx)    == [n |-> n, tenths |-> 5, suffix |-> sfx]      \* n.5
+Bt(n, t, sfx) == [n |-> n, tenths |-> t, suffix |-> sfx]      \* n.t, decimal suffixes only
 Q(cpu, arch, mem, storage, sattrs) == [cpu |-> cpu, cpuArch |-> arch, mem |-> mem, storage |-> storage, storageAttrs |-> sattrs]
 
 QLarge == Q(CpuM(100), "", B(128, "Mi"), B(1, "Gi"), <<>>)
@@ -22,10 +23,12 @@ MemForms == { B(1, "Mi"), B(128, "Mi"), B(1, "Gi"), B(16, "Gi"), Bh(1, "Gi"), Bh
               B(2047, "Ki"), B(2097152, ""), B(1500, "k"), Bh(2, "M"), B(16384, "Mi"), B(17, "Gi"), B(1000, "Ki") }
 StorageForms == { B(5, "Mi"), B(1, "Ti"), B(1, "T"), B(100, "Gi"), Bh(512, "Mi"), B(1000, "Mi"), B(10, "G"),
                   B(5242880, ""), Bh(0, "Ti"), B(4, "Mi"), B(1025, "Gi") }
-QuantsVarying(cpus) ==
+\* n.t <decimal suffix> for n in ns, t in 1..9
+DecForms(sfx, ns) == { Bt(n, t, sfx) : n \in ns, t \in 1..9 }
+QuantsVarying(cpus, mems, stors) ==
        { Q(c, "", B(128, "Mi"), B(1, "Gi"), <<>>) : c \in cpus }
-  \cup { Q(CpuM(100), "", m, B(1, "Gi"), <<>>) : m \in MemForms }
-  \cup { Q(CpuM(100), "", B(128, "Mi"), s, <<>>) : s \in StorageForms }
+  \cup { Q(CpuM(100), "", m, B(1, "Gi"), <<>>) : m \in mems }
+  \cup { Q(CpuM(100), "", B(128, "Mi"), s, <<>>) : s \in stors }
   \cup { Q(CpuM(250), "amd64", B(128, "Mi"), B(1, "Gi"), << <<"class", "ssd">> >>),
          Q(CpuM(250), "", B(128, "Mi"), B(1, "Gi"), << <<"class", "ssd">> >>),
          Q(CpuM(250), "amd64", B(128, "Mi"), B(1, "Gi"), <<>>) }
@@ -33,9 +36,9 @@ QuantsVarying(cpus) ==
 Sl(svcs, profs, places, body, expk, counts, quants) ==
   [svcs |-> svcs, profs |-> profs, places |-> places, body |-> body, expk |-> expk, counts |-> counts, quants |-> quants]
 
-UnitsSlice(cpus) ==
+UnitsSlice(cpus, mems, stors) ==
   Sl(<<"web">>, <<"large">>, <<"east">>, [s \in {"web"} |-> {{}}], [s \in {"web"} |-> {"http"}], {1},
-     [c \in {"large"} |-> QuantsVarying(cpus)])
+     [c \in {"large"} |-> QuantsVarying(cpus, mems, stors)])
 
 \* J2: the documents TLC enumerated, one JSON object per line, written next to the spec
 ExportDocs(slices) ==
